@@ -7,6 +7,8 @@
 export GOFLAGS=-mod=mod GOPROXY=off GOSUMDB=off GOTOOLCHAIN=local
 cd /verif
 if [ -n "$(git -C /repo status --porcelain)" ]; then echo "/repo is not clean"; exit 2; fi
+# the evidence files are rewritten by every check run: keep the ones of the unchanged tree
+EVBAK=$(mktemp -d); cp -a /verif/evidence/. $EVBAK/; trap 'cp -a $EVBAK/. /verif/evidence/; rm -rf $EVBAK' EXIT
 seeds="$@"; [ -z "$seeds" ] && seeds=$(ls seeded | grep -E '^C[0-9]+-[AB]$')
 claimed=$(python3 -c "import json;print(' '.join(c['property_id'] for c in json.load(open('MANIFEST.json'))['checks']))")
 for s in $seeds; do
